@@ -123,6 +123,20 @@ def gen_controlled_veq():
                         yield (list(r), list(vc), list(vsl), alpha, 102.0, 33.5, 1.867), {}, True
 
 
+def gen_controlled_veq_long():
+    """A 7-segment link with EVERY subset of limited segments and pairwise distinct limits (a limit applied to the wrong
+    segment changes the result)."""
+    n = 7
+    rhos = ([10.0, 20.0, 30.0, 40.0, 50.0, 60.0, 70.0], [0.0, 33.5, 106.75, 5.0, 90.0, 33.5, 0.0])
+    for mask in range(2 ** n):
+        vsl = [i for i in range(n) if mask >> i & 1]
+        for r in rhos:
+            for alpha in (0.0, 0.1):
+                vc = [15.0 + 9.0 * k for k in range(len(vsl))]
+                yield (list(r), vc, vsl, alpha, 102.0, 33.5, 1.867), {}, True
+                yield (list(r), vc[::-1], vsl, alpha, 120, 28, 2), {}, True
+
+
 def gen_step_queue():
     for w in (0.0, 2.0, 50.0):
         for d in (0.0, 300.0, 5000.0):
@@ -225,6 +239,7 @@ PRIMS = {
     "links.step_density": gen_step_density,
     "links.Veq": gen_veq,
     "links.controlled_Veq": gen_controlled_veq,
+    "links.controlled_Veq#long": gen_controlled_veq_long,
     "origins.step_queue": gen_step_queue,
     "origins.get_mainstream_flow": gen_mainstream,
     "origins.get_ramp_flow": gen_ramp,
@@ -255,6 +270,12 @@ KINDS = {
 }
 
 
+# primitives whose model parameters the element layer passes through unchanged from the element attributes
+ARRAY_PARAM_PRIMS = ("links.Veq", "links.controlled_Veq", "origins.get_mainstream_flow", "origins.get_ramp_flow",
+                     "origins.get_simplifiedramp_flow", "destinations.get_congestion_free_downstream_density",
+                     "destinations.get_congested_downstream_density", "links.get_flow", "links.step_density")
+
+
 def conv_np(kind, x, shape):
     if x is None or kind in "PIX":
         return list(x) if kind == "I" else x
@@ -277,7 +298,43 @@ class ArgumentModified(Exception):
     pass
 
 
+def call_array_params(engine_np, engine_cs, prim, args):
+    """The NumPy primitive with every numeric parameter given as a 0-d array (as the element layer holds them when the
+    user constructs elements with array parameters): evaluated, then the parameter arrays are CHANGED IN PLACE by the
+    caller and the primitive is evaluated again with the same objects; both results against CasADi at the respective
+    values.  Returns None or a message."""
+    prim = prim.split("#")[0]
+    grp, name = prim.split(".")
+    kinds = KINDS[prim]
+    if "P" not in kinds:
+        return None
+    f_np = getattr(getattr(engine_np, grp), name)
+    f_cs = getattr(getattr(engine_cs, grp), name)
+    cargs = [(np.array(float(a)) if (k == "P" and a is not None and not isinstance(a, str)) else conv_np(k, a, "1d"))
+             for k, a in zip(kinds, args)]
+    factors = {}
+    for rnd in (0, 1):
+        if rnd == 1:
+            for i, (k, c) in enumerate(zip(kinds, cargs)):
+                if k == "P" and isinstance(c, np.ndarray):
+                    c[...] = c * (1.0 + 0.03 * (i + 1))
+        cur = [float(c) if (k == "P" and isinstance(c, np.ndarray)) else a for k, c, a in zip(kinds, cargs, args)]
+        try:
+            rn = flat(f_np(*cargs))
+        except Exception as e:  # noqa: BLE001
+            return f"numpy with 0-d array parameters (round {rnd}): {exc_text(e)}"
+        rc = flat(f_cs(*[conv_dm(k, a) for k, a in zip(kinds, cur)]))
+        if len(rn) != len(rc):
+            return f"round {rnd}: numpy returns {len(rn)} values, casadi {len(rc)}"
+        for x, y in zip(rn, rc):
+            if not (close(x, y) or x == y or (x != x and y != y) or abs(x) == INF or abs(y) == INF):
+                return (f"numpy with 0-d array parameters {'after the caller changed them in place' if rnd else ''} = {x!r}, "
+                        f"casadi at the same values = {y!r}")
+    return None
+
+
 def call(engine, prim, args, which, shape=None):
+    prim = prim.split("#")[0]
     grp, name = prim.split(".")
     f = getattr(getattr(engine, grp), name)
     kinds = KINDS[prim]
@@ -299,6 +356,11 @@ def call(engine, prim, args, which, shape=None):
 
 def compare_case(prim, args, defined, st, problems, shapes=("1d", "0d")):
     ce = CE()
+    if defined and prim.split("#")[0] in ARRAY_PARAM_PRIMS:
+        st.inc("executions", 4)
+        msg = call_array_params(NE(), ce, prim, args)
+        if msg:
+            problems.append((f"C15/{prim.split('#')[0]}/array-parameters", f"{prim}{args}: {msg}", args))
     try:
         rc = flat(call(ce, prim, args, "dm"))
     except Exception as e:  # noqa: BLE001
